@@ -82,3 +82,17 @@ def module_type_names(include_output=False):
     if not include_output:
         names = [n for n in names if n != "Output"]
     return st.sampled_from(names)
+
+
+# byte strings that mean something to the file format itself (chunk ids, signatures); data that
+# merely *contains* them is ordinary data
+MAGIC_BYTES = [b"PMAS", b"SAMP", b"SEND", b"PEND", b"CHNK", b"CHNM", b"CHDT", b"CHFF", b"CHFR", b"SVOX", b"SSYN", b"VERS", b"OggS", b"\xff\xff\xff\xff", b"\x00\x00\x00\x00"]
+
+
+@st.composite
+def bytes_with_magic(draw, max_size=22):
+    """Arbitrary bytes with one of the format's own byte patterns spliced in somewhere."""
+    magic = draw(st.sampled_from(MAGIC_BYTES))
+    body = draw(st.binary(max_size=max(0, max_size - len(magic))))
+    pos = draw(st.integers(0, len(body)))
+    return body[:pos] + magic + body[pos:]
